@@ -100,6 +100,7 @@ def serve_cases(prop, tier, seed):
         g.fam_lex_range(cb, n=4 if not T else 5)
         g.fam_lex_tags(cb, n=4)
         g.fam_deep(cb)
+        g.fam_ifrange(cb)
     elif prop == "C14":
         g.fam_clock(cb, pairs=2 if not T else 6)
         g.fam_echo(cb)
@@ -147,7 +148,7 @@ def serve_nontrivial(prop, c):
     if prop == "C20":
         return c.get("extra", 0) >= 1
     if prop == "C13":
-        return c["cls"].startswith("env") or c["cls"] in ("range_big", "range_ignored", "lex_range", "lex_tags", "deep")
+        return c["cls"].startswith("env") or c["cls"] in ("range_big", "range_ignored", "lex_range", "lex_tags", "deep", "ifrange")
     if prop == "C14":
         return c["cls"] in ("echo", "meta") or a != {}
     if prop == "C15":
